@@ -521,7 +521,7 @@ func genHLLContract(g *vlib.G) {
 // auditSketch checks a sketch decoded without error: the decoded precision
 // and register array must describe an HLL sketch, and it must be usable.
 func auditSketch(r *rep, k *hllKind, what string, s sketch, p uint8, nreg int) {
-	ok := int(p) >= 4 && int(p) <= k.bits && nreg == 1<<uint(p)
+	ok := int(p) >= 4 && int(p) <= k.bits && p < 31 && nreg == 1<<uint(p)
 	var usePanic string
 	usePanic = catch(func() {
 		s.Count()
